@@ -104,6 +104,9 @@ func (c *otApplyContext) applyBackward(accel *otLayoutLookupAccelerator) bool {
 		buffer.idx--
 
 	}
+	// the loop ends with the cursor at -1 (upstream uses an unsigned cursor):
+	// leave it at a valid position for later uses of the buffer, like mergeClusters.
+	buffer.idx = 0
 	return ret
 }
 
